@@ -548,3 +548,56 @@ class tt_setdiff_rows(Contract):
             yield "every-absent-row-listed", T.ForAll(
                 [i], z3.Implies(z3.And(0 <= i, T.tz(i < n), T.ForAll([j], z3.Implies(z3.And(0 <= j, T.tz(j < m)), rb(j) != ra(i)))),
                                 T.Exists([t], z3.And(0 <= t, T.tz(t < L), T.tz(ret.fn(t)) == i))))
+
+
+@register
+class tt_union_rows(Contract):
+    qual = "pyttb.pyttb_utils.tt_union_rows"
+    props = ("C17", "C03")
+    doc = (
+        "For arbitrary non-empty A and B (rows may repeat): the result lists, without repetition, exactly the rows that "
+        "occur in A or in B -- first the distinct rows of B that do not occur in A, then the distinct rows of A, each group "
+        "in order of first occurrence."
+    )
+
+    def setup(self, S, case):
+        n, m = S.int("n", 1), S.int("m", 1)
+        c = S.int("c", 1)
+        A = S.row_matrix("A", n, c)
+        B = S.row_matrix("B", m, c)
+        return dict(MatrixA=A, MatrixB=B)
+
+    def ensures(self, S, a, ret):
+        A, B = a["MatrixA"], a["MatrixB"]
+        n, m = A.shape[0], B.shape[0]
+        ra, rb = A.rowfn, B.rowfn
+        yield "matrix", isinstance(ret, Arr) and ret.ndim == 2
+        L = ret.shape[0]
+        rr = N.ensure_rows(S.ctx, ret)
+        t, u, i, j = z3.Int("un!t"), z3.Int("un!u"), z3.Int("un!i"), z3.Int("un!j")
+        g = S.body_ghosts
+        rg = _row_ghosts(S, A, B)
+        if rg is None or not g.get("select") or not g.get("call:tt_ismember_rows"):
+            raise PathAbort("tt_union_rows contract: expected ghosts of unique / argsort / where / tt_ismember_rows")
+        (mA, idxA, invA), (mB, idxB, invB), (pA, pinvA), (pB, pinvB) = rg
+        (K, sel, rk) = g["select"][-1]
+        matched, loc = g["call:tt_ismember_rows"][0]
+        yield "length", S.eq(L, K + mA)
+        # where each result row comes from
+        srcB = lambda t_: idxB(pB(sel(t_)))
+        srcA = lambda t_: idxA(pA(t_ - K))
+        yield "lemma:first-part-are-rows-of-B", T.ForAll([t], z3.Implies(z3.And(0 <= t, t < K), z3.And(0 <= srcB(t), T.tz(srcB(t) < m), rr(t) == rb(srcB(t)))), [rr(t)]), "lemma"
+        yield "lemma:second-part-are-rows-of-A", T.ForAll([t], z3.Implies(z3.And(K <= t, T.tz(t < L)), z3.And(0 <= srcA(t), T.tz(srcA(t) < n), rr(t) == ra(srcA(t)))), [rr(t)]), "lemma"
+        yield "every-result-row-occurs-in-A-or-B", T.ForAll(
+            [t], z3.Implies(z3.And(0 <= t, T.tz(t < L)), z3.Or(z3.And(t < K, rr(t) == rb(srcB(t))), z3.And(t >= K, rr(t) == ra(srcA(t))))), [rr(t)])
+        # every row of A occurs: row i is unique row invA(i), at position K + pinvA(invA(i))
+        wA = lambda i_: K + pinvA(invA(i_))
+        yield "every-row-of-A-occurs", T.ForAll([i], z3.Implies(z3.And(0 <= i, T.tz(i < n)), z3.And(0 <= wA(i), T.tz(wA(i) < L), rr(wA(i)) == ra(i))), [ra(i)]), "lemma"
+        # every row of B occurs: unique row invB(j) sits at sorted position s(j); if it is not found among the rows of A it
+        # is selected with rank rk(s(j)); otherwise it equals the row of A it was found at
+        sj = lambda j_: pinvB(invB(j_))
+        wB = lambda j_: z3.If(T.tz(loc.fn(sj(j_))) < 0, rk(sj(j_)), K + T.tz(loc.fn(sj(j_))))
+        yield "lemma:row-j-of-B-is-searched-at-s(j)", T.ForAll(
+            [j], z3.Implies(z3.And(0 <= j, T.tz(j < m)), z3.And(0 <= sj(j), sj(j) < mB, rb(idxB(pB(sj(j)))) == rb(j))), [rb(j)]), "lemma"
+        yield "every-row-of-B-occurs", T.ForAll([j], z3.Implies(z3.And(0 <= j, T.tz(j < m)), z3.And(0 <= wB(j), T.tz(wB(j) < L), rr(wB(j)) == rb(j))), [rb(j)])
+        yield "rows-pairwise-distinct", T.ForAll([t, u], z3.Implies(z3.And(0 <= t, t < u, T.tz(u < L)), rr(t) != rr(u)))
